@@ -95,6 +95,7 @@ var c03ZooAdversarial = []string{
 	`{ flag }`, `{ flag(on: 1) }`, `{ flag(on: null) }`, `{ pick }`, `{ pick(i: -1) { id } }`, `{ pick(i: 2147483648) { id } }`, `{ pick(i: $x) { id } }`,
 	`{ label }`, `{ label(upper: true) }`, `{ label(prefix: null) }`, `{ items { label } }`, `{ items { label(upper: "x") } }`,
 	`{ box(in: {d: [1 null]}) }`, `{ box(in: {d: [1, "x"]}) }`, `{ box(in: {d: 3}) }`, `{ box(in: null) }`, `{ box }`, `{ box(in: {inner: {inner: {d: [null]}}}) }`, `{ box(in: {d: [[1]]}) }`,
+	`{ box(in: {depth: 3}) }`, `{ box(in: {d: [1], lid: {depth: 2}}) }`, `query($b: Box){ box(in: $b) zzLate(in: $b) }`, `{ items { zzExtra } zzLate(in: {depth: 1}) }`,
 	`{ box(in: {name: 3}) }`, `{ box(in: {nope: 1}) }`, `{ box(in: []) }`, `{ box(in: "s") }`, `query($b: Box){ box(in: $b) }`, `query($b: [Int]){ box(in: {d: $b}) }`, `{ box(in: {d: [99999999999]}) }`,
 	`query($a:){ name }`, `query($a: Nope){ name }`, `query($a: Int = ){ name }`, `query($: Int){ name }`, `query($a: [Int){ name }`, `query($a: Int!!){ name }`,
 	`query($n: String){ hello(name: $n) }`, `query($n: Int){ add(a: $n, b: $n) }`, `query($n: Boolean){ flag(on: $n) }`, `query($n: Int){ pick(i: $n) { id } }`,
@@ -696,6 +697,10 @@ func c03Exec(in c03Input) {
 		root, _, err := zoo.NewRoot()
 		if err != nil {
 			panic(err)
+		}
+		if r.Intn(4) == 0 {
+			// the schema grows after the Go types were registered: fields the registered Go struct knows nothing about
+			_ = root.ParseString("extend input Box { depth: Int lid: Box }\nextend type Item { zzExtra: Int }\nextend type Query { zzLate(in: Box): String }")
 		}
 		c03SetBudget(len(in.Text))
 		res := root.ResolveString(in.Text, in.Op, in.Vars)
